@@ -1,1 +1,250 @@
-def main : IO Unit := IO.println "stub"
+import Nsq.Model.Line
+import Nsq.Model.ProtoV2
+import Nsq.Model.HttpApi
+import Nsq.Spec.ProtoSpec
+/-!
+Driver for engine E3 (proto): one operation per input line, one canonical answer line out.
+The broker and the tables persist across lines (a case is `reset` followed by operations).
+
+  conf <id> <maxMsg> <maxBody> <maxRdy> <maxReqNs> <maxHbMs> <minObtMs> <maxObtMs> <maxObSize>
+       <maxMtMs> <tlsGate> <tlsConfigured> <deflate> <snappy> <hbNs> <obtNs> <mtNs> <httpTlsRefuse> <cfgNames,…>
+  json <hexbody> bad | <hb> <obs> <obt> <mt> <sr> <fn> <tls> <deflate> <snappy>
+  reset
+  io <conf> <hexstream>
+  iof <conf> <hexstream> <hexid,…>   (the ids are in flight for this connection)
+  http <conf> <method> <hexpath> <hexquery> <contentLength|-1> <hexbody> <healthy>
+  spec <conf> <hexstream>
+  name <hex> | b10 <hex> | pint <hex> | query <hex> | mpubtext <maxMsg> <maxBody> <hex>
+-/
+open Nsq Nsq.Line Nsq.Model.ProtoV2 Nsq.Model
+
+structure DConf where
+  conf : Conf
+  hbNs : Int
+  obtNs : Int
+  mtNs : Int
+  http : HttpApi.HConf
+
+structure DState where
+  confs : List (String × DConf) := []
+  json : List (Bytes × Option IdentifyData) := []
+  brokers : List (String × Broker) := []   -- one broker per configuration (= per nsqd)
+
+def b01 (s : String) : Bool := s == "1"
+
+def DState.broker (st : DState) (cid : String) : Broker :=
+  ((st.brokers.find? (·.1 == cid)).map (·.2)).getD []
+
+def DState.setBroker (st : DState) (cid : String) (b : Broker) : DState :=
+  { st with brokers := (cid, b) :: st.brokers.filter (·.1 != cid) }
+
+def fnv1a (bs : Bytes) : UInt32 :=
+  bs.foldl (fun h c => (h ^^^ c.toUInt32) * 16777619) 2166136261
+
+def showBytes (b : Bytes) : String :=
+  if b.length > 48 then s!"#{b.length}.{(fnv1a b).toNat}" else hex b
+
+def showMsg (m : Msg) : String := s!"{showBytes m.body}~{m.deferNs}"
+
+def joinOr (sep : String) (xs : List String) : String :=
+  if xs.isEmpty then "-" else sep.intercalate xs
+
+def insertSorted (x : String) : List String → List String
+  | [] => [x]
+  | y :: ys => if x ≤ y then x :: y :: ys else y :: insertSorted x ys
+
+def sortStrs (xs : List String) : List String := xs.foldr insertSorted []
+
+def showChan (c : Chan) : String :=
+  s!"{hex c.name};{if c.paused then 1 else 0};{c.clients};{joinOr "," (sortStrs (c.msgs.map showMsg))}"
+
+def showTopic (t : Topic) : String :=
+  s!"{hex t.name}:{if t.paused then 1 else 0}:{t.count}:{joinOr "," (t.msgs.map showMsg)}:{joinOr "+" (sortStrs (t.chans.map showChan))}"
+
+def showBroker (b : Broker) : String := joinOr "/" (sortStrs (b.map showTopic))
+
+def showReply : Reply → String
+  | .ok => "OK" | .closeWait => "CLOSE_WAIT" | .json => "JSON" | .err c => c.toString
+
+def showEnd : End → String
+  | .eof => "eof" | .closed => "closed" | .upgraded => "upgraded" | .panic => "panic"
+  | .outOfFuel => "out-of-fuel"
+
+def showSt : St → String
+  | .init => "init" | .subscribed => "subscribed" | .closing => "closing"
+
+def showConn (s : ConnState) : String :=
+  s!"{showSt s.st},{s.hbNs},{s.obSize},{s.obtNs},{s.sampleRate},{s.msgTimeoutNs},{s.rdy}"
+
+def lookupJson (tbl : List (Bytes × Option IdentifyData)) (body : Bytes) : Option (Option IdentifyData) :=
+  (tbl.find? (fun e => e.1 == body)).map (·.2)
+
+/-- First IDENTIFY body the run would hand to `encoding/json` that is not in the table yet
+(only used to ask the harness for the real decoder's answer; the answer line itself always comes
+from the model's `serve`). -/
+partial def scanNeed (conf : Conf) (tbl : List (Bytes × Option IdentifyData))
+    (s : ConnState) (b : Broker) (bs : Bytes) : Option Bytes :=
+  match readLine bs with
+  | .line l rest =>
+    let ps := splitSp l
+    let need : Option Bytes :=
+      if ps.head? == some cIDENTIFY && s.st == .init then
+        match readBody conf.maxBodySize rest with
+        | .ok body _ => if (lookupJson tbl body).isNone then some body else none
+        | _ => none
+      else none
+    match need with
+    | some x => some x
+    | none =>
+      let stp := exec conf s b ps rest
+      if stp.ctl == .cont then scanNeed conf tbl stp.st stp.broker stp.rest else none
+  | _ => none
+
+/-- What the declarative table allows for each command of a connection, in order. The connection
+state is advanced with the model's `exec` (the table itself is evaluated on every command). -/
+partial def specWalk (conf : Conf) (s : ConnState) (bs : Bytes) (fuel : Nat) : List String :=
+  if fuel == 0 then [] else
+  match readLine bs with
+  | .line l rest =>
+    let ps := splitSp l
+    let al := Nsq.Spec.ProtoSpec.allowed conf s ps rest
+    let here := joinOr "," (al.map (fun a =>
+      s!"{match a.1 with | some r => showReply r | none => "-"}|{if a.2 then 1 else 0}"))
+    let stp := exec conf s [] ps rest
+    if stp.ctl == .cont then here :: specWalk conf stp.st stp.rest (fuel - 1) else [here]
+  | _ => []
+
+def parseInt (s : String) : Int := s.toInt?.getD 0
+
+def parseConf (w : List String) : Option (String × DConf) :=
+  match w with
+  | [id, maxMsg, maxBody, maxRdy, maxReq, maxHb, minObt, maxObt, maxObs, maxMt, tlsGate, tlsConf,
+     defl, snap, hb, obt, mt, httpTls, cfgNames] =>
+    let conf : Conf :=
+      { maxMsgSize := parseInt maxMsg, maxBodySize := parseInt maxBody, maxRdy := parseInt maxRdy,
+        maxReqTimeoutNs := parseInt maxReq, maxHeartbeatMs := parseInt maxHb, minObtMs := parseInt minObt,
+        maxObtMs := parseInt maxObt, maxObSize := parseInt maxObs, maxMsgTimeoutMs := parseInt maxMt,
+        tlsGate := b01 tlsGate, authGate := none, authCmd := .disabled, tlsConfigured := b01 tlsConf,
+        deflateEnabled := b01 defl, snappyEnabled := b01 snap, decode := fun _ => none }
+    let hc : HttpApi.HConf :=
+      { maxMsgSize := parseInt maxMsg, maxBodySize := parseInt maxBody,
+        maxReqTimeoutMs := Int.tdiv (parseInt maxReq) 1000000,
+        tlsRefuse := b01 httpTls,
+        cfgNames := (cfgNames.splitOn ",").map Names.ascii }
+    some (id, { conf := conf, hbNs := parseInt hb, obtNs := parseInt obt, mtNs := parseInt mt, http := hc })
+  | _ => none
+
+def parseJson (w : List String) : Option (Option IdentifyData) :=
+  match w with
+  | ["bad"] => some none
+  | [hb, obs, obt, mt, sr, fn, tls, defl, snap] =>
+    some (some { heartbeat := parseInt hb, outBufSize := parseInt obs, outBufTimeout := parseInt obt,
+                 msgTimeout := parseInt mt, sampleRate := parseInt sr, featureNegotiation := b01 fn,
+                 tlsv1 := b01 tls, deflate := b01 defl, snappy := b01 snap })
+  | _ => none
+
+def showOptNat : Option Nat → String
+  | some n => s!"{n}" | none => "err"
+
+def showOptInt : Option Int → String
+  | some n => s!"{n}" | none => "err"
+
+def showQuery : Option (List (Bytes × Bytes)) → String
+  | none => "err"
+  | some kv => joinOr "&" (kv.map (fun p => s!"{hex p.1}={hex p.2}"))
+
+def stepLine (st : DState) (line : String) : DState × String :=
+  match words line with
+  | "conf" :: rest =>
+    match parseConf rest with
+    | some (id, c) => ({ st with confs := (id, c) :: st.confs.filter (·.1 != id) }, "ok")
+    | none => (st, "bad-op")
+  | "json" :: h :: rest =>
+    match unhex h, parseJson rest with
+    | some body, some d => ({ st with json := (body, d) :: st.json }, "ok")
+    | _, _ => (st, "bad-op")
+  | ["reset"] => ({ st with brokers := [] }, "ok")
+  | ["io", cid, h] =>
+    match st.confs.find? (·.1 == cid), unhex h with
+    | some (_, dc), some bs =>
+      let tbl := st.json
+      let conf := { dc.conf with decode := fun body => (lookupJson tbl body).getD none }
+      let s0 := freshConn dc.hbNs dc.obtNs dc.mtNs
+      let need := if bs.take 4 == magicV2 then scanNeed conf tbl s0 (st.broker cid) (bs.drop 4) else none
+      match need with
+      | some body => (st, s!"need-json {hex body}")
+      | none =>
+        let r := serve conf s0 (st.broker cid) bs
+        let conn := if r.fin == .eof then showConn r.st else "-"
+        (st.setBroker cid r.broker,
+         s!"R={joinOr "," (r.replies.map showReply)} E={showEnd r.fin} S={conn} B={showBroker r.broker}")
+    | _, _ => (st, "bad-op")
+  | ["iof", cid, h, idsHex] =>
+    -- one connection with the given message ids in flight for it; the broker is not compared
+    match st.confs.find? (·.1 == cid), unhex h with
+    | some (_, dc), some bs =>
+      let ids := (idsHex.splitOn ",").filterMap unhex
+      let conf := { dc.conf with decode := fun body => (lookupJson st.json body).getD none }
+      let s0 := { freshConn dc.hbNs dc.obtNs dc.mtNs with inflight := ids }
+      let r := serve conf s0 (st.broker cid) bs
+      let stateOf (id : Bytes) : String :=
+        r.eff.foldl (fun acc e =>
+          if acc != "inflight" then acc else
+          match e with
+          | .fin i => if i == id then "gone" else acc
+          | .req i ns => if i == id then (if ns == 0 then "requeued" else s!"deferred:{ns}") else acc
+          | _ => acc) "inflight"
+      let conn := if r.fin == .eof then showConn r.st else "-"
+      (st.setBroker cid r.broker,
+       s!"R={joinOr "," (r.replies.map showReply)} E={showEnd r.fin} S={conn} F={",".intercalate (ids.map (fun i => s!"{hex i}={stateOf i}"))}")
+    | _, _ => (st, "bad-op")
+  | ["spec", cid, h] =>
+    -- what the declarative table allows as the answer to the FIRST command of a fresh connection
+    match st.confs.find? (·.1 == cid), unhex h with
+    | some (_, dc), some bs =>
+      let tbl := st.json
+      let conf := { dc.conf with decode := fun body => (lookupJson tbl body).getD none }
+      let s0 := freshConn dc.hbNs dc.obtNs dc.mtNs
+      if bs.take 4 == magicV2 then
+        (st, "A=" ++ joinOr ";" (specWalk conf s0 (bs.drop 4) 64))
+      else (st, "A=-")
+    | _, _ => (st, "bad-op")
+  | ["http", cid, method, hp, hq, cl, hb, healthy] =>
+    match st.confs.find? (·.1 == cid), unhex hp, unhex hq, unhex hb with
+    | some (_, dc), some path, some query, some body =>
+      let rq : HttpApi.Request :=
+        { method := Names.ascii method, path := path, rawQuery := query, contentLength := parseInt cl,
+          body := body }
+      let r := HttpApi.handle dc.http (b01 healthy) (st.broker cid) rq
+      (st.setBroker cid r.2,
+       s!"H={HttpApi.showStatus r.1.status} M={if r.1.msg.isEmpty then "-" else r.1.msg} B={showBroker r.2}")
+    | _, _, _, _ => (st, "bad-op")
+  | ["name", h] =>
+    match unhex h with
+    | some b => (st, if Names.isValidName b then "valid" else "invalid")
+    | none => (st, "bad-op")
+  | ["b10", h] =>
+    match unhex h with
+    | some b => (st, showOptNat (Base10.byteToBase10 b))
+    | none => (st, "bad-op")
+  | ["pint", h] =>
+    match unhex h with
+    | some b => (st, showOptInt (Base10.parseInt64 b))
+    | none => (st, "bad-op")
+  | ["query", h] =>
+    match unhex h with
+    | some b => (st, showQuery (HttpApi.parseQuery b))
+    | none => (st, "bad-op")
+  | _ => (st, "bad-op")
+
+partial def loop (h : IO.FS.Stream) (out : IO.FS.Stream) (st : DState) : IO Unit := do
+  let line ← h.getLine
+  if line.isEmpty then return ()
+  let (st', ans) := stepLine st (line.dropRightWhile (· == '\n'))
+  out.putStrLn ans
+  loop h out st'
+
+def main : IO Unit := do
+  let out ← IO.getStdout
+  loop (← IO.getStdin) out {}
+  out.flush
